@@ -319,7 +319,9 @@ def plain_status(run, rng, cfg):
             return
         state['handshakes'].append(hs)
         try:
-            seen = scripts.status_exchange(io, obj)
+            seen = scripts.status_exchange(
+                io, obj, before_pong=lambda: clock.step(
+                    cfg.get('clock_step', 0)))
             state['request'] = seen['request']
             state['ping'] = seen['ping']
         except mcserver.ScriptTimeout:
@@ -330,6 +332,7 @@ def plain_status(run, rng, cfg):
         except mcserver.ScriptTimeout:
             state['never_closed'] = True
 
+    clock = pc.SteppingClock()
     server = mcserver.Server(handler)
     rec = pc.Recorder()
     conn = None
@@ -352,12 +355,34 @@ def plain_status(run, rng, cfg):
         def on_ping(ms):
             rec.pings.append(ms)
             rec.log.emit('cb.ping')
+        kind = cfg.get('handler_kind', 'function')
+
+        def as_kind(fn):
+            # the handlers are documented as "a function"; any callable will
+            # do, whatever its truth value and whoever else refers to it
+            if kind == 'falsy-callable':
+                class Collector(list):
+                    def __call__(self, value):
+                        return fn(value)
+                assert not Collector()
+                return Collector()
+            if kind == 'bound-method':
+                class Holder(object):
+                    def method(self, value):
+                        return fn(value)
+                return Holder().method
+            if kind == 'partial':
+                import functools
+                return functools.partial(fn)
+            return fn
+        if hs_mode == 'custom' or hp_mode == 'custom':
+            run.seen('handler_kinds', kind)
         if hs_mode == 'custom':
-            args['handle_status'] = on_status
+            args['handle_status'] = as_kind(on_status)
         elif hs_mode == 'disabled':
             args['handle_status'] = False
         if hp_mode == 'custom':
-            args['handle_ping'] = on_ping
+            args['handle_ping'] = as_kind(on_ping)
         elif hp_mode == 'default':
             args['handle_ping'] = None        # documented: print the latency
         elif rng.random() < 0.5:
@@ -378,7 +403,9 @@ def plain_status(run, rng, cfg):
         conn.vf_short_reads = rng.random() < 0.5
         decoy = Decoy()
         log_mark = len(rec.log.events)
-        with contextlib.redirect_stdout(out):
+        import time as _time
+        t_begin = _time.monotonic()
+        with contextlib.redirect_stdout(out), clock:
             try:
                 conn.status(**args)
             except Exception as e:
@@ -388,6 +415,9 @@ def plain_status(run, rng, cfg):
                 decoy.port.close()
                 return None
             idle = pc.wait_idle(conn, 20.0)
+        elapsed_ms = int(1000 * (_time.monotonic() - t_begin)) + 1
+        if clock.steps and clock.steps[0]:
+            run.count('status_queries.wall_clock_stepped')
         decoy.verdict(run, w)
         if not idle:
             return 'threads alive: ' + pc.dump_threads()
@@ -425,6 +455,10 @@ def plain_status(run, rng, cfg):
                     rec.pings[0] < 0:
                 bad('plain-status/latency', 'latency must be reported once and'
                     ' be non-negative', pings=rec.pings)
+            elif rec.pings[0] > elapsed_ms:
+                bad('plain-status/latency-exceeds-duration', 'the reported '
+                    'latency is longer than the whole query took (monotonic '
+                    'clock)', pings=rec.pings, query_ms=elapsed_ms)
         if hp_mode == 'default' and do_ping and printed.count('Ping:') != 1:
             bad('plain-status/default-ping', 'default ping handler must print '
                 'once')
@@ -629,6 +663,12 @@ def run(run):
                        'status_handler_ignores': hs_mode == 'custom' and
                        rep % 2 == 1,
                        'handle_status': hs_mode, 'handle_ping': hp_mode,
+                       # what kind of callable a custom handler is, and
+                       # whether the wall clock is stepped while the ping is
+                       # in flight (seconds)
+                       'handler_kind': ('function', 'falsy-callable',
+                                        'bound-method', 'partial')[j % 4],
+                       'clock_step': (-30, 0, 3600)[j % 3],
                        'A': rng.sample(sup, rng.choice((1, 2, 5))),
                        'status': {'version': {'name': 'v%d' % j,
                                               'protocol': rng.choice(sup)},
